@@ -15,9 +15,86 @@ import (
 //   string: "…"   bool: true   *float64 / *int: number | null   []string: [...] | null
 //   []any: [tagged…] | null   *any: {"v": tagged} | null   json.RawMessage: raw JSON text | null
 //   map[string]bool: [[k, b]…] | null   map[string][]string: [[k, [...]|null]…] | null   map[string]any: [[k, tagged]…] | null
+//
+// Two optional members beside "nodes" and "root" describe what a Schema built IN GO can hold and a decoded one cannot (the node
+// table still says what every field CONTAINS; the model reads only the node table):
+//
+//   "alias": [{"backing": ["n0","n1",…], "slots": [{"node": i, "field": "Required", "off": 0, "len": 3},
+//                                                    {"node": j, "field": "DependentRequired", "key": "k", "off": 1, "len": 2}, …]}, …]
+//       every slot — a []string field (Required, PropertyOrder, Types) or a value of a map[string][]string field (DependentRequired,
+//       DependencyStrings; "key") of any node — is set to the window backing[off : off+len] of ONE array per group, with the capacity
+//       a plain re-slice has (up to the end of the array): names[:1] and names[:3] of one `names`. The window must hold exactly
+//       what the node table says the field holds (checked). With "alias" present the automatic prefix-sharing of PropertyOrder
+//       slices (below) is switched off; without it nothing changes.
+//   "goextra": [[node, key, value-descriptor], …]
+//       Extra[key] of that node is set to the Go value of the descriptor (goval.go: typed maps and slices, json.Number, pointers,
+//       declared structs "S:…", json.RawMessage "rawjson", *Schema "schema") instead of a decoded JSON value; the node table's
+//       Extra entry of the same key carries the JSON value that Go value marshals to.
 type schemaDesc struct {
-	Nodes []map[string]json.RawMessage `json:"nodes"`
-	Root  *int                         `json:"root"`
+	Nodes   []map[string]json.RawMessage `json:"nodes"`
+	Root    *int                         `json:"root"`
+	Alias   []aliasGroup                 `json:"alias"`
+	GoExtra [][3]json.RawMessage         `json:"goextra"`
+}
+
+type aliasGroup struct {
+	Backing []string    `json:"backing"`
+	Slots   []aliasSlot `json:"slots"`
+}
+
+type aliasSlot struct {
+	Node  int     `json:"node"`
+	Field string  `json:"field"`
+	Key   *string `json:"key"`
+	Off   int     `json:"off"`
+	Len   int     `json:"len"`
+}
+
+// applyAliases makes the string slices named by the groups windows of one backing array each.
+func applyAliases(nodes []*jsonschema.Schema, groups []aliasGroup) error {
+	for _, g := range groups {
+		backing := append([]string(nil), g.Backing...)
+		backing = backing[:len(backing):len(backing)]
+		for _, sl := range g.Slots {
+			if sl.Node < 0 || sl.Node >= len(nodes) || sl.Off < 0 || sl.Len < 0 || sl.Off+sl.Len > len(backing) {
+				return fmt.Errorf("alias: bad slot %+v", sl)
+			}
+			f := reflect.ValueOf(nodes[sl.Node]).Elem().FieldByName(sl.Field)
+			if !f.IsValid() {
+				return fmt.Errorf("alias: no field %s", sl.Field)
+			}
+			win := backing[sl.Off : sl.Off+sl.Len]
+			var cur []string
+			switch fv := f.Interface().(type) {
+			case []string:
+				if sl.Key != nil {
+					return fmt.Errorf("alias: field %s takes no key", sl.Field)
+				}
+				cur = fv
+				f.Set(reflect.ValueOf(win))
+			case map[string][]string:
+				if sl.Key == nil || fv == nil {
+					return fmt.Errorf("alias: field %s needs a key of a non-nil map", sl.Field)
+				}
+				var ok bool
+				if cur, ok = fv[*sl.Key]; !ok {
+					return fmt.Errorf("alias: field %s has no key %q", sl.Field, *sl.Key)
+				}
+				fv[*sl.Key] = win
+			default:
+				return fmt.Errorf("alias: field %s is not a string slice", sl.Field)
+			}
+			if cur == nil || len(cur) != len(win) {
+				return fmt.Errorf("alias: the window of %s does not hold what the node table says", sl.Field)
+			}
+			for k := range cur {
+				if cur[k] != win[k] {
+					return fmt.Errorf("alias: the window of %s does not hold what the node table says", sl.Field)
+				}
+			}
+		}
+	}
+	return nil
 }
 
 var (
@@ -122,10 +199,34 @@ func buildSchemas(raw json.RawMessage) (*jsonschema.Schema, []*jsonschema.Schema
 			}
 		}
 	}
+	for _, ge := range d.GoExtra {
+		var i int
+		var k string
+		if err := json.Unmarshal(ge[0], &i); err != nil || i < 0 || i >= len(nodes) {
+			return nil, nil, fmt.Errorf("goextra: bad node index")
+		}
+		if err := json.Unmarshal(ge[1], &k); err != nil {
+			return nil, nil, err
+		}
+		v, err := buildAny(ge[2])
+		if err != nil {
+			return nil, nil, fmt.Errorf("goextra: %v", err)
+		}
+		if nodes[i].Extra == nil {
+			nodes[i].Extra = map[string]any{}
+		}
+		nodes[i].Extra[k] = v
+	}
+	if err := applyAliases(nodes, d.Alias); err != nil {
+		return nil, nil, err
+	}
 	// PropertyOrder slices that are a strict prefix (by value) of another node's PropertyOrder are re-sliced from that one's backing
 	// array: two Schema values may legitimately share such an array (order[:1] and order); Marshal must neither write into it nor
-	// be confused by it.
+	// be confused by it. (Not done when the descriptor says itself which slices share an array.)
 	for i := range nodes {
+		if len(d.Alias) > 0 {
+			break
+		}
 		for j := range nodes {
 			pi, pj := nodes[i].PropertyOrder, nodes[j].PropertyOrder
 			if i == j || len(pi) == 0 || len(pi) >= len(pj) {
